@@ -107,17 +107,19 @@ def rw_function(rng, prog, style=None):
     params = ["p%d" % i for i in range(len(cols))]
     body = map_cols(e, lambda c: ["param", params[[(x[1], x[2]) for x in cols].index((c[1], c[2]))]])
     fname = "fn%d" % (len(prog.get("funcs", [])) + 1)
-    style = style or rng.choice(["positional", "piped", "named_default", "named_given"])
+    style = style or rng.choice(["positional", "piped", "named_default", "named_given", "piped_named_given"])
     f = {"name": fname, "params": list(params), "named": [], "body": body}
     call = ["call", fname, [list(c) for c in cols], {}, False]
     if style == "piped":
         call[4] = True
-    elif style in ("named_default", "named_given"):
+    if style == "piped_named_given":
+        call[4] = True            # (last_arg | fn nm:7 other_args): with one parameter the call itself has no positional argument
+    if style in ("named_default", "named_given", "piped_named_given"):
         # add a named parameter with a default that the body uses additively as `?? dflt`-free identity: (body) wrapped as case [nm == nm => body]
         lit = ["lit", rng.choice([1, 2, 5])]
         f["named"] = [["nm", lit]]
         f["body"] = ["case", [[["bin", "==", ["param", "nm"], lit if style == "named_default" else ["lit", 7]], body]]]
-        if style == "named_given":
+        if style in ("named_given", "piped_named_given"):
             call[3] = {"nm": ["lit", 7]}
         # semantics: case [nm == k => body]  with nm == k always true => body
     p["funcs"] = p.get("funcs", []) + [f]
